@@ -47,13 +47,32 @@ def _lowprec_case(draw):
     return c
 
 
+@st.composite
+def _dist_case(draw):
+    """The same statement on every rank of a distributed run: the gradient a rank ends up with (computed there or received) is nu*V."""
+    from props.c02 import placement
+    W = draw(st.sampled_from([2, 2, 3, 4]))
+    method = draw(st.sampled_from(['eigen', 'eigen', 'inverse']))
+    prediv = draw(st.booleans()) if method == 'eigen' else False
+    case = {'dist': True, 'W': W, 'method': method, 'prediv': prediv,
+            'spec': draw(gens.model_spec(max_layers=3, max_dim=6, max_out=5)), 'N': draw(st.integers(1, 3)),
+            'style': draw(gens.style_strategy()), 'in_hook': draw(st.booleans()), 'accum': 1, 'update': 'noise',
+            'zero_to_none': draw(st.booleans()),
+            'hp': {'factor_update_steps': 1, 'inv_update_steps': 1, 'damping': draw(st.sampled_from([0.003, 0.03, 0.3])),
+                   'factor_decay': draw(st.sampled_from([0.95, 0.5])), 'kl_clip': draw(st.sampled_from([1e30, 1e-3, 1e-5])), 'lr': 0.1},
+            'steps': draw(st.integers(1, 3)), 'data_seed': draw(st.integers(0, 9999)),
+            'schedule': draw(st.lists(st.integers(0, 63), max_size=100)), 'flip': draw(st.booleans())}
+    case.update(draw(placement(W, method, prediv)))
+    return case
+
+
 class C01(Prop):
     id = 'C01'
     title = 'Preconditioned gradient solves the damped Kronecker-factored system'
     rule = ('Hypothesis draws a runnable model of 1-3 supported layers (linear incl. N-d inputs, conv2d with rectangular kernels/strides/'
             'paddings, bias on/off, subclasses), batch 1-6, data style, damping log-uniform in [1e-3,10], decay in (0,1], method x '
             'pre-divided eigenvalues x colocate, parameter dtype float32/float64, factor dtype None/float32/float64/bfloat16, inverse dtype '
-            'float32/float64, 1-4 steps with SGD weight updates in between, factors and second-order data refreshed every 1-3 steps (cached decompositions are reused in between), clipping off (1e30) or active; one case in five is a low-precision long run (eigen method, bfloat16 factors, decay <= 0.5, 3-8 steps, batch 1-3, inverse dtype float64/float32) in which the stored factors become measurably indefinite. Oracle: D recorded on a twin model '
+            'float32/float64, 1-4 steps with SGD weight updates in between, factors and second-order data refreshed every 1-3 steps (cached decompositions are reused in between), clipping off (1e30) or active; one case in five is a low-precision long run (eigen method, bfloat16 factors, decay <= 0.5, 3-8 steps, batch 1-3, inverse dtype float64/float32) in which the stored factors become measurably indefinite. One case in six runs W in {2,3,4} simulated ranks under a drawn placement and applies the same oracle on EVERY rank to the gradient it ends up with (computed there or received), from the averaged gradient and the factors that rank holds. Oracle: D recorded on a twin model '
             'without K-FAC, A and G read from state_dict() after the step, V_ref from a float64 dense solve of the system named in the '
             'statement (Kronecker form for eigen), nu_ref from the clip formula; ||grad - nu_ref V_ref||_F <= 16 sqrt(n) eps kappa ||V_ref||_F, and '
             'the residual of the defining system is within the same bound. Non-trivial: tolerance <= 5e-2 and V_ref differs by more than '
@@ -64,11 +83,11 @@ class C01(Prop):
                    'kappa from the float64 system (product form for eigen, sum of the two factor condition numbers for inverse)']
     examples = {'quick': 500, 'thorough': 2000}
     shards = {'quick': 4, 'thorough': 16}
-    required_labels = {'quick': ['nontrivial=True', 'method=eigen', 'method=inverse', 'has_conv=True', 'clip=active', 'lowprec_long_run=True', 'reused_second_order=True'],
-                       'thorough': ['nontrivial=True', 'method=eigen', 'method=inverse', 'has_conv=True', 'clip=active', 'lowprec_long_run=True', 'reused_second_order=True']}
+    required_labels = {'quick': ['nontrivial=True', 'method=eigen', 'method=inverse', 'has_conv=True', 'clip=active', 'lowprec_long_run=True', 'reused_second_order=True', 'dist=True'],
+                       'thorough': ['nontrivial=True', 'method=eigen', 'method=inverse', 'has_conv=True', 'clip=active', 'lowprec_long_run=True', 'reused_second_order=True', 'dist=True']}
 
     def strategy(self, tier):
-        return st.one_of(_case(), _case(), _case(), _case(), _lowprec_case())
+        return st.one_of(_case(), _case(), _case(), _case(), _lowprec_case(), _dist_case())
 
     def summarize(self, infos):
         tols = sorted(i['tol'] for i in infos if 'tol' in i)
@@ -79,7 +98,58 @@ class C01(Prop):
         return {'tolerance_quantiles': {'p50': q(tols, .5), 'p90': q(tols, .9), 'max': tols[-1]},
                 'error_over_tolerance_quantiles': {'p50': q(errs, .5), 'p99': q(errs, .99), 'max': errs[-1]}}
 
+    def _dist(self, c):
+        import torch
+        from vkit import kaisa, kmodel, refkfac
+        W = c['W']
+        labels = {'dist': True, 'W': W, 'method': c['method'], 'prediv': c['prediv'],
+                  'strategy': 'COMM' if c['k'] == W else 'MEM' if c['k'] == 1 else 'HYBRID', 'clip': 'off' if c['hp']['kl_clip'] >= 1e29 else 'active'}
+        program = [{'op': 'train', 'seed': c['data_seed'] + t} for t in range(c['steps'])]
+        res = kaisa.run_sim(c, program, c['schedule'], c['flip'], observe=('grads_before', 'factors'))
+        if res.timed_out:
+            raise RuntimeError('simulation timed out (harness)')
+        if not res.ok:
+            return violation(f'protocol violation {res.violations[0]}', 'protocol:' + res.violations[0].kind, labels=labels)
+        model = kmodel.build_model(c['spec'])
+        mods = dict(model.named_modules())
+        names = kmodel.kfac_layer_names(model)
+        eps = refkfac.EPS[torch.float32]
+        lam, worst, nontrivial = c['hp']['damping'], 0.0, False
+        for rank in range(W):
+            for t, rec in enumerate([r for r in res.results[rank] if r['op'] == 'train']):
+                D = {n: kmodel.combined_grad(mods[n], rec['before'], n) for n in names}
+                sols, pairs, kap = {}, [], {}
+                for n in names:
+                    A, G = rec['factors'][n]['A'].to(torch.float64), rec['factors'][n]['G'].to(torch.float64)
+                    if c['method'] == 'inverse':
+                        V, _ = refkfac.solve_inverse(A, G, lam, D[n])
+                        eye = lambda M: torch.eye(M.shape[0], dtype=torch.float64)
+                        kap[n] = torch.linalg.cond(A + lam * eye(A)).item() + torch.linalg.cond(G + lam * eye(G)).item()
+                    else:
+                        V, kap[n] = refkfac.solve_eigen(A, G, lam, D[n])
+                    sols[n] = V
+                    pairs.append((V, D[n]))
+                nu, _vg = refkfac.clip_scale(c['hp']['kl_clip'], c['hp']['lr'], pairs)
+                tol_all = max(refkfac.tolerance(kap[n], D[n].numel(), eps) for n in names)
+                for n in names:
+                    tol = refkfac.tolerance(kap[n], D[n].numel(), eps) + (tol_all if nu < 1.0 else 0.0)
+                    if tol > 5e-2:
+                        continue
+                    got = kmodel.combined_grad(mods[n], rec['after'], n)
+                    ref = nu * sols[n]
+                    rn, err = ref.norm().item(), (got - ref).norm().item()
+                    if rn > 0:
+                        nontrivial = True
+                        worst = max(worst, err / (tol * rn + 1e-30))
+                    if err > tol * rn + 1e-30:
+                        return violation(f'rank {rank} step {t} layer {n} (W={W}, k={c["k"]}, method={c["method"]}, prediv={c["prediv"]}, nu={nu:.4g}): '
+                                         f'||grad - nu*V_ref|| / ||nu*V_ref|| = {err / max(rn, 1e-300):.3e} > tolerance {tol:.3e}', 'solve-mismatch', labels=labels)
+        labels['nontrivial'] = nontrivial
+        return passed(nontrivial, labels, {'err_over_tol': worst})
+
     def run_case(self, c):
+        if c.get('dist'):
+            return self._dist(c)
         import torch
         from kfac.preconditioner import KFACPreconditioner
         from vkit import kmodel, refkfac
